@@ -38,6 +38,10 @@ def tier(default="quick"):
     t = os.environ.get("VERIF_TIER", default)
     return t if t in ("quick", "thorough") else default
 
+def driver_timeout():
+    """how long one batch of the Go drivers may run before it is taken to hang"""
+    return 150 if tier() == "quick" else 1200
+
 def scratch_dir(prefix="verif-"):
     d = tempfile.mkdtemp(prefix=prefix, dir=os.environ.get("TMPDIR", "/tmp"))
     _scratch_dirs.append(d)
